@@ -194,3 +194,62 @@ func reachableFragments(doc *ast.QueryDocument, op *ast.OperationDefinition) []s
 	sort.Strings(out)
 	return out
 }
+
+// sharedInputMismatch reports whether two operations use a common input-object type while carrying
+// different operation-level @genqlient directives.  docs/genqlient_directive.graphql ("for"): "all
+// operations and fragments in the same package which use this type should have matching directives
+// ... This is not currently validated" — such programs are outside the supported usage, because the
+// shape of the shared Go type then depends on which operation is converted first.
+func sharedInputMismatch(schema *ast.Schema, defs []gen.Def) bool {
+	doc, err := parser.ParseQuery(&ast.Source{Name: "q", Input: (&gen.Program{Defs: defs}).OperationsText()})
+	if err != nil {
+		return false
+	}
+	inputsOf := func(op *ast.OperationDefinition) map[string]bool {
+		seen := map[string]bool{}
+		var visit func(name string)
+		visit = func(name string) {
+			d := schema.Types[name]
+			if d == nil || d.Kind != ast.InputObject || seen[name] {
+				return
+			}
+			seen[name] = true
+			for _, f := range d.Fields {
+				visit(f.Type.Name())
+			}
+		}
+		for _, v := range op.VariableDefinitions {
+			visit(v.Type.Name())
+		}
+		return seen
+	}
+	sig := map[string]string{}
+	for _, d := range defs {
+		if d.Kind == "fragment" {
+			continue
+		}
+		var lines []string
+		for _, l := range strings.Split(d.Comment, "\n") {
+			l = strings.TrimSpace(l)
+			if strings.HasPrefix(l, "# @genqlient") && !strings.Contains(l, "typename:") {
+				lines = append(lines, l)
+			}
+		}
+		sort.Strings(lines)
+		sig[d.Name] = strings.Join(lines, "|")
+	}
+	ops := doc.Operations
+	for i := 0; i < len(ops); i++ {
+		for j := i + 1; j < len(ops); j++ {
+			a, b := inputsOf(ops[i]), inputsOf(ops[j])
+			shared := false
+			for k := range a {
+				shared = shared || b[k]
+			}
+			if shared && sig[ops[i].Name] != sig[ops[j].Name] {
+				return true
+			}
+		}
+	}
+	return false
+}
